@@ -34,9 +34,12 @@ func hashOf(b []byte) string {
 
 // readOps are the read-only operations of C11; each returns a digest of what it observed.
 var readOps = map[string]func(m proto.Message, other proto.Message) string{
-	"Size":       func(m, _ proto.Message) string { return fmt.Sprint(proto.Size(m)) },
-	"MarshalDet": func(m, _ proto.Message) string { b, _ := proto.MarshalOptions{Deterministic: true}.Marshal(m); return hashOf(b) },
-	"Marshal":    func(m, _ proto.Message) string { b, _ := proto.Marshal(m); return fmt.Sprint(len(b)) },
+	"Size": func(m, _ proto.Message) string { return fmt.Sprint(proto.Size(m)) },
+	"MarshalDet": func(m, _ proto.Message) string {
+		b, _ := proto.MarshalOptions{Deterministic: true}.Marshal(m)
+		return hashOf(b)
+	},
+	"Marshal": func(m, _ proto.Message) string { b, _ := proto.Marshal(m); return fmt.Sprint(len(b)) },
 	"HasGet": func(m, _ proto.Message) string {
 		r := m.ProtoReflect()
 		fds := r.Descriptor().Fields()
@@ -76,10 +79,18 @@ var readOps = map[string]func(m proto.Message, other proto.Message) string{
 		}
 		return s
 	},
-	"Equal":   func(m, other proto.Message) string { return fmt.Sprint(proto.Equal(m, other), proto.Equal(other, m), proto.Equal(m, m)) },
-	"Clone":   func(m, _ proto.Message) string { c := proto.Clone(m); return fmt.Sprint(proto.Size(c)) },
-	"JSON":    func(m, _ proto.Message) string { b, err := protojson.Marshal(m); return fmt.Sprint(len(b) > 0, err == nil) },
-	"Project": func(m, _ proto.Message) string { b, _ := json.Marshal(proj.Project(m.ProtoReflect(), proj.WrapNone)); return hashOf(b) },
+	"Equal": func(m, other proto.Message) string {
+		return fmt.Sprint(proto.Equal(m, other), proto.Equal(other, m), proto.Equal(m, m))
+	},
+	"Clone": func(m, _ proto.Message) string { c := proto.Clone(m); return fmt.Sprint(proto.Size(c)) },
+	"JSON": func(m, _ proto.Message) string {
+		b, err := protojson.Marshal(m)
+		return fmt.Sprint(len(b) > 0, err == nil)
+	},
+	"Project": func(m, _ proto.Message) string {
+		b, _ := json.Marshal(proj.Project(m.ProtoReflect(), proj.WrapNone))
+		return hashOf(b)
+	},
 	// fmt.Sprint(m) exercises String(); its text is deliberately unstable, so only completion counts
 	"String": func(m, _ proto.Message) string { _ = fmt.Sprint(m); return "ok" },
 	// the bytes Marshal returns belong to the caller: each goroutine appends its own trailer to its
@@ -185,6 +196,13 @@ func cmdReaders(args []string) {
 				for t := range assign {
 					assign[t] = []string{names[(a+t*(1+rep))%len(names)], names[(a+t+i)%len(names)]}
 				}
+				if rep == 0 {
+					// every goroutine performs the SAME operation (state shared between calls of one
+					// function -- scratch buffers, pools, caches -- only collides this way)
+					for t := range assign {
+						assign[t] = []string{names[a], names[a]}
+					}
+				}
 				if runs == 0 {
 					// the very first concurrent use of this type in the process: every goroutine
 					// enters the generated fast paths (lazily initialised state must be race-free)
@@ -235,7 +253,9 @@ func cmdReaders(args []string) {
 	w.WriteByte('\n')
 }
 
-func dynamicpbNew(md protoreflect.MessageDescriptor) *dynamicpb.Message { return dynamicpb.NewMessage(md) }
+func dynamicpbNew(md protoreflect.MessageDescriptor) *dynamicpb.Message {
+	return dynamicpb.NewMessage(md)
+}
 
 // addNilEntries adds one element to every message list and message-valued map of the top-level
 // message: an empty message in the dynamic twin d, a nil pointer in the generated struct p.
